@@ -66,7 +66,7 @@ impl<T: Clone + TTOverwriteable> TranspositionTable<T> {
     }
 
     pub fn new_generation(&mut self) {
-        self.generation += 1;
+        self.generation = self.generation.wrapping_add(1);
     }
 
     #[expect(
